@@ -690,3 +690,22 @@ pub fn status_short(s: &CommandStatus) -> &'static str {
         _ => "Rejected(?)",
     }
 }
+
+/// Signature of a panic on the caller's thread: which kind of call, and the head of the message.
+pub fn caller_panic_signature(c: &Call, m: &str) -> String {
+    let kind = match &c.op {
+        Op::Put { w, ttl_ms, .. } => match (w, ttl_ms) {
+            (None, None) => "put",
+            (Some(_), None) => "put_with_weight",
+            (None, Some(_)) => "put_with_ttl",
+            (Some(_), Some(_)) => "put_with_weight_and_ttl",
+        },
+        Op::Upsert { .. } => "put_or_update",
+        Op::Delete { .. } => "delete",
+        Op::Read { .. } | Op::MultiRead { .. } | Op::ReadAll { .. } => "read",
+        Op::Shutdown => "shutdown",
+        _ => "other",
+    };
+    let head: String = m.lines().next().unwrap_or("").chars().take(70).collect();
+    format!("panic:caller:{}:{}", kind, head)
+}
